@@ -208,7 +208,7 @@ func mapRangeOf(b *ssa.BasicBlock) *ssa.Range {
 
 func c14(c *core.Ctx, r *core.Report) {
 	ro := c.Roles()
-	r.Explanation = "C14 Close: the WaitGroup fan-out protocol is decided on all paths of App.Close's closer loop: (R1) Add(len(S)) before a forward range over the same S, exactly one go per iteration, no early loop exit; (R2) the goroutine body calls Close exactly once on the element it received as a parameter (go.mod says go 1.20: loop variables are shared), Done deferred at entry; (R3) Wait post-dominates the loop; (R4) no panic/exit-class call or early exit depends on a Close error; (R5) the closer collection is wired by type. A plain sequential loop is the other accepted idiom. Decides wait-for-all, exactly-once and isolation structurally; not what a closer does."
+	r.Explanation = "C14 Close: the WaitGroup fan-out protocol is decided on all paths of App.Close's closer loop: (R1) Add(len(S)) before a forward range over the same S, exactly one go per iteration, no early loop exit; (R2) the goroutine body calls Close exactly once on the element it received as a parameter (go.mod says go 1.20: loop variables are shared), Done deferred at entry; (R3) Wait post-dominates the loop; (R4) no panic/exit-class call or early exit depends on a Close error; (R5) the closer collection is wired by type; (R6) the fan-out is conditional on nothing but the closer list being non-empty. A plain sequential loop is the other accepted idiom. Decides wait-for-all, exactly-once and isolation structurally; not what a closer does."
 	r.Assumptions = []string{"sync.WaitGroup semantics", "closers do not panic (a panic in a goroutine terminates the process)"}
 	sites := c.CallSites(func(com *ssa.CallCommon) bool { return core.IsInvoke(com, ro.CloserClose) })
 	r.Count("close_invoke_sites", len(sites))
@@ -280,6 +280,26 @@ func c14(c *core.Ctx, r *core.Report) {
 		c14Field(c, r, rl.Slice)
 	} else if rl == nil {
 		r.Fail("C14.R1", cons+":range", c.Pos(g.Pos()), "closer fan-out is not a forward range over the closer slice")
+	}
+	// R6: nothing but "there are no closers" lets Close skip the fan-out
+	if rl != nil {
+		extra := ""
+		for _, cd := range c.ControlDeps(g.Block()) {
+			if cd.If.Block() == rl.Header {
+				continue
+			}
+			if b, ok := cd.If.Cond.(*ssa.BinOp); ok {
+				if ln, isCall := b.X.(*ssa.Call); isCall {
+					if bi, isB := ln.Common().Value.(*ssa.Builtin); isB && bi.Name() == "len" && core.Equiv(ln.Common().Args[0], rl.Slice) {
+						if k, isK := core.ConstInt(b.Y); isK && k == 0 {
+							continue
+						}
+					}
+				}
+			}
+			extra = "extra condition at " + c.Pos(cd.If.Cond.Pos())
+		}
+		r.Check(extra == "", "C14.R6", cons+":unconditional", c.Pos(g.Pos()), "the fan-out over the closers is conditional on nothing but the closer list being non-empty: Close always reaches every registered closer "+extra)
 	}
 	// R4: nothing in the body escalates a Close error
 	bad := ""
